@@ -1,5 +1,6 @@
 import Mathlib.Data.ZMod.Basic
 import Mathlib.Algebra.Field.ZMod
+import Mathlib.Tactic.LinearCombination
 import Rangers.Model.VrfCurve
 import Rangers.Proofs.C16Curve
 /-!
@@ -77,6 +78,59 @@ theorem model_add_affine (a q : Point)
     ha.1 hq.1 ha.2 hq.2 hD1 hD2
   refine ⟨⟨?_, ?_⟩, ?_, ?_⟩
   · rw [eZ]; exact hne
+  · rw [eT, eZ, eX, eY]; exact ht
+  · unfold affX at *; rw [eX, eZ]; exact hx
+  · unfold affY at *; rw [eY, eZ]; exact hy
+
+
+/-! ### `GeSub` = addition of the negated point -/
+
+theorem cast_fneg (a : ℕ) : ((fneg a : ℕ) : Fp) = -(a : Fp) := by
+  unfold fneg
+  have hle : a % VrfCurve.p ≤ VrfCurve.p := Nat.le_of_lt (Nat.mod_lt _ p_pos)
+  rw [ZMod.natCast_mod, Nat.cast_sub hle, ZMod.natCast_self, ZMod.natCast_mod]
+  ring
+
+/-- −(X, Y, Z, T) = (−X, Y, Z, −T) -/
+def negPt (q : Point) : Point := ⟨fneg q.X, q.Y, q.Z, fneg q.T⟩
+
+/-- The model's `sub` (ref10 `GeSub`) has, coordinate by coordinate in `ZMod p`, the value of
+    `add a (−q)`. -/
+theorem model_sub_cast (a q : Point) :
+    (((VrfCurve.sub a q).X : ℕ) : Fp) = ((VrfCurve.add a (negPt q)).X : ℕ) ∧
+    (((VrfCurve.sub a q).Y : ℕ) : Fp) = ((VrfCurve.add a (negPt q)).Y : ℕ) ∧
+    (((VrfCurve.sub a q).Z : ℕ) : Fp) = ((VrfCurve.add a (negPt q)).Z : ℕ) ∧
+    (((VrfCurve.sub a q).T : ℕ) : Fp) = ((VrfCurve.add a (negPt q)).T : ℕ) := by
+  simp only [VrfCurve.sub, subC, VrfCurve.add, addC, Completed.toExtended, negPt, cast_fmul, cast_fadd,
+    cast_fsub, cast_fneg, cast_d2]
+  refine ⟨?_, ?_, ?_, ?_⟩ <;> ring
+
+theorem negPt_wellFormed (q : Point) (hq : WellFormed q) : WellFormed (negPt q) := by
+  unfold WellFormed negPt at *
+  simp only [cast_fneg]
+  exact ⟨hq.1, by linear_combination -hq.2⟩
+
+theorem negPt_affine (q : Point) : affX (negPt q) = -affX q ∧ affY (negPt q) = affY q := by
+  unfold affX affY negPt
+  simp only [cast_fneg]
+  exact ⟨neg_div _ _, trivial⟩
+
+/-- `sub` computes `a + (−q)` in the group of the curve (affine coordinates), and preserves
+    the representation invariant. -/
+theorem model_sub_affine (a q : Point) (ha : WellFormed a) (hq : WellFormed q)
+    (hD1 : 1 + (dConst : Fp) * affX a * (-affX q) * affY a * affY q ≠ 0)
+    (hD2 : 1 - (dConst : Fp) * affX a * (-affX q) * affY a * affY q ≠ 0) :
+    WellFormed (VrfCurve.sub a q) ∧
+    affX (VrfCurve.sub a q) = addX (dConst : Fp) (affX a) (affY a) (-affX q) (affY q) ∧
+    affY (VrfCurve.sub a q) = addY (dConst : Fp) (affX a) (affY a) (-affX q) (affY q) := by
+  obtain ⟨eX, eY, eZ, eT⟩ := model_sub_cast a q
+  obtain ⟨nx, ny⟩ := negPt_affine q
+  have h := model_add_affine a (negPt q) ha (negPt_wellFormed q hq) (by rw [nx, ny]; exact hD1)
+    (by rw [nx, ny]; exact hD2)
+  rw [nx, ny] at h
+  obtain ⟨⟨hz, ht⟩, hx, hy⟩ := h
+  refine ⟨⟨?_, ?_⟩, ?_, ?_⟩
+  · rw [eZ]; exact hz
   · rw [eT, eZ, eX, eY]; exact ht
   · unfold affX at *; rw [eX, eZ]; exact hx
   · unfold affY at *; rw [eY, eZ]; exact hy
